@@ -45,6 +45,7 @@ pub mod verif {
         pub history_output: Option<String>,
         pub last_considered_in_gen: usize,
         pub in_dag: bool,
+        pub was_started: bool,
     }
 
     #[derive(Clone, Debug, PartialEq, Eq)]
